@@ -117,6 +117,25 @@ pub fn record(id: u64, s: &str) -> String {
                 sl(&mut out, "u32_a..b", x, y, v.slice_u32(x as u32..y as u32));
                 sl(&mut out, "string_a..b", x, y, a.slice(x..y));
                 sl(&mut out, "string_u32_a..b", x, y, a.slice_u32(x as u32..y as u32));
+                // explicit bound pairs: the only way to get an excluded start bound
+                {
+                    use std::ops::Bound::*;
+                    sl(&mut out, "(Included a, Excluded b)", x, y, v.slice((Included(x), Excluded(y))));
+                    sl(&mut out, "string_(Included a, Excluded b)", x, y, a.slice((Included(x), Excluded(y))));
+                    if x >= 1 {
+                        sl(&mut out, "(Excluded a-1, Excluded b)", x, y, v.slice((Excluded(x - 1), Excluded(y))));
+                        sl(&mut out, "u32_(Excluded a-1, Excluded b)", x, y, v.slice_u32((Excluded(x as u32 - 1), Excluded(y as u32))));
+                        sl(&mut out, "string_(Excluded a-1, Excluded b)", x, y, a.slice((Excluded(x - 1), Excluded(y))));
+                        sl(&mut out, "string_u32_(Excluded a-1, Excluded b)", x, y, a.slice_u32((Excluded(x as u32 - 1), Excluded(y as u32))));
+                        if y == n {
+                            sl(&mut out, "(Excluded a-1, Unbounded)", x, n, v.slice((Excluded(x - 1), Unbounded)));
+                            sl(&mut out, "string_u32_(Excluded a-1, Unbounded)", x, n, a.slice_u32((Excluded(x as u32 - 1), Unbounded)));
+                        }
+                        if y > x {
+                            sl(&mut out, "(Excluded a-1, Included b-1)", x, y, v.slice((Excluded(x - 1), Included(y - 1))));
+                        }
+                    }
+                }
                 if y > x {
                     sl(&mut out, "a..=b", x, y, v.slice(x..=y - 1));
                     sl(&mut out, "u32_a..=b", x, y, v.slice_u32(x as u32..=y as u32 - 1));
